@@ -117,6 +117,13 @@ def scenarios(ctx, scripts):
                 st += [{"a": "memberRead", "src": alive[0], "n": 2}, {"a": "read"}]
             st += [{"a": "counters"}, {"a": "close"}, {"a": "read"}]
             add("rfail", {"members": ["m1", "m2", "m3"], "init": "m1", "mode": mode, "wait": False}, st)
+    # a Write that stays inside the current member for a long time (250 ms) while the scheduler selects another member: the selection
+    # is applied once the write is through, later writes go to the selected member
+    for mode in ("event", "nic", "poll"):
+        for sel in (["m2"], ["m3", "m2"], ["zz", "m3"]):
+            st = [{"a": "writeBegin", "n": 1}] + [{"a": "select", "id": x} for x in sel] + [{"a": "writeEnd"}, {"a": "write", "n": 2},
+                  {"a": "negotiationParams"}, {"a": "write", "n": 3}, {"a": "close"}]
+            add("stall", {"members": ["m1", "m2", "m3"], "init": "m1", "mode": mode, "wait": True, "holdMs": 250}, st)
     add("corner", {"members": ["m1", "m2", "m3"], "init": "m2", "mode": "event", "wait": True},
         [{"a": "memberRead", "src": "m1", "n": 1}, {"a": "memberRead", "src": "m3", "n": 2}, {"a": "select", "id": "m3"},
          {"a": "write", "n": 1}, {"a": "counters"}, {"a": "close"}, {"a": "read"}])
@@ -158,7 +165,7 @@ def run():
     if ctx.quick():
         # always part of the quick tier: the fixed corners and the scenarios in which selections queue up behind a write in flight
         def fixed(s):
-            return "/corner/" in s["id"] or s["id"].startswith("C19/cerr/") or s["id"].startswith("C19/renew/") or s["id"].startswith("C19/rfail/") or (s["id"].startswith("C19/hold/") and s["p"]["wait"]
+            return "/corner/" in s["id"] or s["id"].startswith("C19/cerr/") or s["id"].startswith("C19/renew/") or s["id"].startswith("C19/rfail/") or s["id"].startswith("C19/stall/") or (s["id"].startswith("C19/hold/") and s["p"]["wait"]
                                              and sum(1 for x in s["steps"] if x["a"] == "select") == 2)
         corners = [s for s in scs if fixed(s)]
         scs = pick([s for s in scs if not fixed(s)], QUICK_N, ctx.seed) + corners
